@@ -33,8 +33,8 @@ ASSUMPTIONS = [
     "200 / 206 / 416 is accepted; a 500, an escaped exception or an unfinished response never is",
     "HEAD: range handling is only defined for GET (RFC 9110 14.2), so HEAD may answer 200 with the full length or mirror GET",
 ]
-MIN = {"quick": {"evaluations": 30000, "nontrivial": 15000, "outcomes": 6},
-       "thorough": {"evaluations": 100000, "nontrivial": 50000, "outcomes": 6}}
+MIN = {"quick": {"evaluations": 44000, "nontrivial": 44000, "outcomes": 5},
+       "thorough": {"evaluations": 100000, "nontrivial": 100000, "outcomes": 5}}
 
 SMALL_SIZES = [0, 1, 2, 5, 10]
 UNITS = [b"bytes=", b"Bytes=", b"items=", b"bytes", b"bytes =", b" bytes=", b"bytes= "]
@@ -54,6 +54,7 @@ def classify(header):
     """-> (kind, specs).  kind in absent / malformed / gray / valid.  specs: list of ('int', f, l|None) / ('suf', n)."""
     if header is None:
         return "absent", None
+    header = header.strip(b" \t")        # a field value excludes leading and trailing OWS (RFC 9110 5.5)
     if b"=" not in header:
         return "malformed", None
     unit, rest = header.split(b"=", 1)
